@@ -25,6 +25,7 @@ type capCore struct {
 	faultKind string // if set, faultAt counts only calls of this kind
 	kindSeen  int
 	fired     string
+	faultedAt int    // index in calls of the call that failed
 	fileMode  string // "all" | "base" | "only:<Iface>"
 	short     bool   // buggify: a failing Write accepts a prefix first
 	// readShape (buggify, legal io.Reader behaviour): 0 as the inner file, 1 at most half the buffer,
@@ -84,6 +85,7 @@ func (c *capCore) hit(kind, name string) error {
 	}
 	if i == c.faultAt && c.fired == "" {
 		c.fired = kind
+		c.faultedAt = len(c.calls) - 1
 		c.t.Stat("fault:fs." + kind)
 		c.t.Logf("FAULT: primitive call %d %s(%q) fails", i, kind, name)
 		if c.notExistBelow != "" && strings.HasPrefix(name, c.notExistBelow+"/") {
@@ -701,6 +703,9 @@ func callFileHelper(f hackpadfs.File, which string) (string, error) {
 	panic(which)
 }
 
+// c08FileZero: what callFileHelper reports when a helper transferred, listed or moved nothing.
+var c08FileZero = map[string]string{"Write": "0", "WriteAt": "0", "Seek": "0", "ReadDir": "0", "ReadAt": `0 ""`}
+
 // c08FileHelpers: method present => delegated result; absent => *PathError with ErrNotImplemented.
 func c08FileHelpers(t *T) {
 	c := t.C
@@ -731,10 +736,34 @@ func c08FileHelpers(t *T) {
 	ft, err := hackpadfs.OpenFile(newCapFS(coreT, []string{"OpenFile"}), path, flag, 0)
 	must(t, err)
 	defer ft.Close()
+	// a primitive the helper relies on fails: the method itself where it is there, the Stat a helper asks for the
+	// name in its refusal where it is not. Whatever the helper does about it, it does not report success
+	faulty := c.Chance(1, 4)
+	if faulty {
+		if present {
+			coreM.armNext("file." + which)
+		} else {
+			coreM.armNext("file.Stat")
+		}
+	}
 	gd, gerr := callFileHelper(fm, which)
+	coreM.disarm()
 	wd, werr := callFileHelper(ft, which)
-	t.Logf("file helper %s present=%v inner=%d -> masked %q %v | full %q %v", which, present, innerKind, gd, gerr, wd, werr)
+	t.Logf("file helper %s present=%v inner=%d fault fired=%q -> masked %q %v | full %q %v", which, present, innerKind, coreM.fired, gd, gerr, wd, werr)
 	sig := fmt.Sprintf("C08:file:%s:present=%v", which, present)
+	if faulty {
+		if coreM.fired != "" && gerr == nil {
+			t.Fail("silent-failure", sig+":fault="+coreM.fired+":nil", fmt.Sprintf("%sFile: the handle's %s failed and the helper returned nil (%q)", which, coreM.fired, gd))
+		}
+		if zero := c08FileZero[which]; coreM.fired != "" && !present && gd != zero {
+			t.Fail("file-helper", sig+":fault="+coreM.fired+":refusal-with-result", fmt.Sprintf("%sFile on a handle without the method, whose Stat failed, returned %q together with %v", which, gd, gerr))
+		}
+		if coreM.fired != "" {
+			t.Stat("probe:fault-inside-file-helper")
+		}
+		t.NonTrivial()
+		return
+	}
 	if present {
 		if errClass(gerr) != errClass(werr) || gd != wd {
 			t.Fail("file-helper", sig+":differs", fmt.Sprintf("%sFile on a handle exposing the method returned (%q, %v); on a full handle (%q, %v)", which, gd, gerr, wd, werr))
@@ -742,6 +771,10 @@ func c08FileHelpers(t *T) {
 	} else {
 		if _, ok := gerr.(*hackpadfs.PathError); !ok || !errors.Is(gerr, hackpadfs.ErrNotImplemented) {
 			t.Fail("file-helper", sig+":not-ENOSYS", fmt.Sprintf("%sFile on a handle without the method returned %#v (want *PathError with ErrNotImplemented)", which, gerr))
+		}
+		// "changes nothing" includes claiming nothing: no bytes, entries or offset next to the refusal
+		if zero := c08FileZero[which]; gd != zero {
+			t.Fail("file-helper", sig+":refusal-with-result", fmt.Sprintf("%sFile on a handle without the method returned %q together with its refusal (%v)", which, gd, gerr))
 		}
 		if a, b := takeSnapshot(innerM, snapOpts{Special: true}), takeSnapshot(innerT, snapOpts{Special: true}); werr == nil && which != "Write" && which != "WriteAt" && which != "Truncate" && which != "Chmod" && which != "Chtimes" && a.Text != b.Text {
 			_ = a
